@@ -197,3 +197,27 @@ class _:
     native_call = "[(o, m) for o, m in KafkaCodec._decode_message(nat_wrap_gzip(1, message_set), wrapper_offset)]"
     native_gunzip_identity = True
     search = {"message_set": "msgset"}
+
+
+# ---- bounded stand-ins (NOT proofs): the contract evaluated natively against the grammar-driven reference parser ------
+DEC_ERR_MALFORMED = {k: "not {wf}(data)" for k in
+                     ("BufferUnderflowError", "ProtocolError", "struct.error", "UnicodeDecodeError", "CorruptMessage",
+                      "AttributeError", "TypeError")}
+
+
+def _malformed(wf):
+    return {k: v.format(wf=wf) for k, v in DEC_ERR_MALFORMED.items()}
+
+
+contract(K + "decode_metadata_response")(type('_', (), dict(
+    sig="(data: bytes) -> Any", props=["C05", "C08", "C12"], bounded=dict(n=1500), search={"data": "resp:mdr"},
+    ensures={"func[C05,C08]": "implies(mdr_wellformed(data), result == mdr_expected(data))"},
+    raises=_malformed("mdr_wellformed"),
+    notes="dynamic struct formats ('>%di' % n) and dict-of-dict results are outside the symbolic subset; compared with a "
+          "grammar-driven reference parser on generated well-formed, truncated, perturbed and padded responses")))
+
+contract(K + "decode_sync_group_member_assignment")(type('_', (), dict(
+    sig="(data: bytes) -> Any", props=["C05", "C15", "C12"], bounded=dict(n=1500), search={"data": "resp:sgma"},
+    ensures={"func[C05,C15]": "implies(sgma_wellformed(data), result == sgma_expected(data))"},
+    raises=_malformed("sgma_wellformed"),
+    notes="dynamic struct format ('>%si' % n): bounded comparison with the grammar-driven reference parser")))
